@@ -565,11 +565,15 @@ fn run_c20(args: &Args) -> i32 {
         }
     }
     // Miri tier (thorough only, or `--miri <invocations>`).
-    let miri_inv = opt_u64(args, "miri", if tier == Tier::Thorough { 6 } else { 0 });
-    let mut miri_json = json!({"ran": false, "reason": "thorough tier only"});
+    // Miri tier: free-running real threads under Miri's seeded scheduler
+    // (the only tier that sees data races and wrong memory orderings).
+    // Quick: 1 invocation x 3 programs x 12 scheduler seeds; thorough:
+    // 6 x 6 x 64. `--miri 0` switches it off.
+    let miri_inv = opt_u64(args, "miri", if tier == Tier::Thorough { 6 } else { 1 });
+    let mut miri_json = json!({"ran": false, "reason": "switched off with --miri 0"});
     if miri_inv > 0 && exit == 0 {
-        let programs = opt_u64(args, "miri-programs", 6);
-        let mseeds = opt_u64(args, "miri-seeds", 64);
+        let programs = opt_u64(args, "miri-programs", if tier == Tier::Thorough { 6 } else { 3 });
+        let mseeds = opt_u64(args, "miri-seeds", if tier == Tier::Thorough { 64 } else { 12 });
         match run_miri_tier(seed, miri_inv, programs, mseeds) {
             Err(e) => harness_error(&e),
             Ok(m) => {
